@@ -10,7 +10,7 @@ import time
 
 HERE = os.path.dirname(os.path.abspath(__file__))
 ROOT = os.path.dirname(HERE)
-WORK = os.path.join(ROOT, "work")
+WORK = os.environ.get("VERIF_WORK") or os.path.join(ROOT, "work")
 sys.path.insert(0, HERE)
 import mirsmt  # noqa: E402
 import kernels  # noqa: E402
@@ -330,6 +330,8 @@ def witness_to_replay(k, wit):
         return f"b_access_r{recv}_a{acc}", [g("cols"), g("rows"), stride, col, row]
     if r[0] == "b_view":
         return f"b_view_{0 if r[1] == 'owned' else 1}", [g("cols"), g("rows"), g("stride", g("cols")), g("start_c"), g("start_r"), g("end_c"), g("end_r")]
+    if r[0] == "b_cursor":
+        return f"b_cursor_{r[1]}_{r[2]}", [g("cols", 1), g("skip"), g("items"), g("n")]
     if r[0] == "b_ctor":
         which = {"new": 0, "init": 1, "from_vec": 2, "view_new": 3, "viewmut_new": 4}[r[1]]
         return f"b_ctor_{which}", [g("cols"), g("rows"), g("len")]
